@@ -154,18 +154,21 @@ class LenInterp:
             return True
         if isinstance(st, ast.If):
             t = self.ev(st.test, env)
-            if isinstance(t, tuple) and t[0] == 'cmp0':
-                # `if h == 0: ...` : both branches, the true one with h := 0
+            if isinstance(t, Poly) and (t - H).is_zero():
+                t = ('cmpn0', 'h')  # `if h:`
+            if isinstance(t, tuple) and t and t[0] in ('cmp0', 'cmpn0'):
+                # `if h == 0: ...` : both branches, the zero one with h := 0, the other knowing h >= 1
                 _, name = t
+                zero_body, pos_body = (st.body, st.orelse) if t[0] == 'cmp0' else (st.orelse, st.body)
                 e1 = dict(env)
                 e1['__subst__'] = dict(env.get('__subst__', {}), **{name: Poly()})
-                self.block(st.body, e1, rets) if True else None
+                f1 = self.block(zero_body, e1, rets) if zero_body else True
                 e2 = dict(env)
                 e2['__pos__'] = set(env.get('__pos__', set())) | {name}
-                f2 = self.block(st.orelse, e2, rets) if st.orelse else True
+                f2 = self.block(pos_body, e2, rets) if pos_body else True
                 if f2:
-                    env.update({k: v for k, v in e2.items()})
-                return f2
+                    env.update({k: v for k, v in e2.items() if k not in ('__subst__',)})
+                return f1 or f2
             raise Incomplete(site(st), f'branch outside the length language: {ast.unparse(st.test)[:50]}')
         raise Incomplete(site(st), f'statement outside the length language: {type(st).__name__}')
 
@@ -207,9 +210,21 @@ class LenInterp:
             if isinstance(a, Arr) and isinstance(b, Arr) and isinstance(e.op, ast.MatMult):
                 return Arr(a.n)
             raise Incomplete(site(e), f'arithmetic outside the length language: {ast.unparse(e)[:50]}')
-        if isinstance(e, ast.Compare) and len(e.ops) == 1 and isinstance(e.ops[0], ast.Eq):
+        if isinstance(e, ast.UnaryOp) and isinstance(e.op, ast.Not):
+            v = self.ev(e.operand, env)
+            if isinstance(v, tuple) and v and v[0] in ('cmp0', 'cmpn0'):
+                return ('cmpn0' if v[0] == 'cmp0' else 'cmp0', v[1])
+            if isinstance(v, Poly) and (v - H).is_zero():
+                return ('cmp0', 'h')  # `not h`
+        if isinstance(e, ast.Compare) and len(e.ops) == 1 and isinstance(e.ops[0], (ast.NotEq, ast.Gt)):
             a, b = self.ev(e.left, env), self.ev(e.comparators[0], env)
             if isinstance(a, Poly) and isinstance(b, Poly) and b.is_zero() and (a - H).is_zero():
+                return ('cmpn0', 'h')
+            if isinstance(e.ops[0], ast.NotEq) and isinstance(a, Poly) and isinstance(b, Poly) and a.is_zero() and (b - H).is_zero():
+                return ('cmpn0', 'h')
+        if isinstance(e, ast.Compare) and len(e.ops) == 1 and isinstance(e.ops[0], ast.Eq):
+            a, b = self.ev(e.left, env), self.ev(e.comparators[0], env)
+            if isinstance(a, Poly) and isinstance(b, Poly) and ((b.is_zero() and (a - H).is_zero()) or (a.is_zero() and (b - H).is_zero())):
                 return ('cmp0', 'h')
         if isinstance(e, ast.Attribute):
             base = self.ev(e.value, env)
